@@ -1,14 +1,54 @@
 (* C13 — A truncated file yields a prefix of the original records, then EOF or an error.
-   Property theorems only (proofs in theories/Trunc). *)
-From Coq Require Import List NArith.
-From NV Require Import Base.LE Trunc.Stream Trunc.StreamProofs.
+   Property theorems only: each is closed by [exact] of a lemma proved in theories/Trunc and is
+   followed by Print Assumptions.  Models: NV.Trunc.Stream (BAM / BCF record readers, BGZF frame
+   and block readers, a record reader layered on the BGZF reader) and NV.Index.Layout (BAI).
+   All theorems quantify over EVERY written item list and EVERY cut point k (no bound). *)
+From Coq Require Import List Arith NArith Bool.
+From NV Require Import Base.LE Trunc.Stream Trunc.StreamProofs Index.Layout Index.LayoutProofs Trunc.BaiProofs.
 Import ListNotations.
 Open Scope N_scope.
 
-(* BAM record stream (u32 LE block_size + body), for EVERY record list and EVERY cut k, on a plain
-   source (after = Eof) and below a failing source (after = Err e): prefix of whole records, then
-   [after] exactly at record boundaries and an error (UnexpectedEof on a plain source) inside a
-   record. *)
+(* ---- generic: any item reader that decodes one written item from the front of its input and
+   stops with [pout x j] when the input ends j bytes into item x ---- *)
+Theorem c13_stream_truncation :
+  forall (X A : Type) (enc : X -> list N) (out : X -> A) (good : X -> Prop)
+         (rd : list N -> step A) (s_end : stop) (pout : X -> nat -> stop),
+    rd [] = Stop s_end ->
+    (forall x rest, good x -> rd (enc x ++ rest) = Item (out x) rest) ->
+    (forall x j, good x -> (0 < j < length (enc x))%nat -> rd (firstn j (enc x)) = Stop (pout x j)) ->
+    (forall x, good x -> (0 < length (enc x))%nat) ->
+    forall (xs : list X) (k : nat), Forall good xs ->
+    exists j : nat,
+      (j <= length xs)%nat /\
+      (length (encode X enc (firstn j xs)) <= k)%nat /\
+      (j < length xs -> k < length (encode X enc (firstn (S j) xs)))%nat /\
+      read_stream rd (firstn k (encode X enc xs)) =
+        (map out (firstn j xs),
+         match nth_error xs j with
+         | None => s_end
+         | Some x => if (k =? length (encode X enc (firstn j xs)))%nat then s_end
+                     else pout x (k - length (encode X enc (firstn j xs)))%nat
+         end).
+Proof. exact stream_truncation_generic. Qed.
+Print Assumptions c13_stream_truncation.
+
+Theorem c13_no_fabrication :
+  forall (X A : Type) (enc : X -> list N) (out : X -> A) (good : X -> Prop)
+         (rd : list N -> step A) (s_end : stop) (pout : X -> nat -> stop),
+    rd [] = Stop s_end ->
+    (forall x rest, good x -> rd (enc x ++ rest) = Item (out x) rest) ->
+    (forall x j, good x -> (0 < j < length (enc x))%nat -> rd (firstn j (enc x)) = Stop (pout x j)) ->
+    (forall x, good x -> (0 < length (enc x))%nat) ->
+    forall (xs : list X) (k i : nat) (a : A), Forall good xs ->
+    nth_error (fst (read_stream rd (firstn k (encode X enc xs)))) i = Some a ->
+    exists x, nth_error xs i = Some x /\ a = out x.
+Proof. exact no_fabrication_generic. Qed.
+Print Assumptions c13_no_fabrication.
+
+(* ---- BAM record stream (u32 LE block_size + body; model of bam/src/io/reader/record.rs), on a
+   plain source (after = Eof) and below a failing source (after = Err e): the records wholly
+   inside the cut, unchanged and in order; then [after] exactly at record boundaries and an
+   error (UnexpectedEof on a plain source) when the stream ends inside a record ---- *)
 Theorem c13_bam_stream_truncation : forall after rs k, Forall bam_good rs ->
   exists j : nat,
     (j <= length rs)%nat /\
@@ -26,3 +66,118 @@ Theorem c13_bam_no_fabrication : forall after rs k i r, Forall bam_good rs ->
   nth_error rs i = Some r.
 Proof. exact bam_no_fabrication. Qed.
 Print Assumptions c13_bam_no_fabrication.
+
+(* ---- BCF record stream (l_shared, l_indiv, site, samples; model of bcf/src/io/reader/record.rs;
+   the site-buffer indexer is a parameter that accepts the written sites) ---- *)
+Theorem c13_bcf_stream_truncation :
+  forall (site_ok : list N -> option ekind) after rs k, Forall (bcf_good site_ok) rs ->
+  exists j : nat,
+    (j <= length rs)%nat /\
+    (length (bcf_encode (firstn j rs)) <= k)%nat /\
+    (j < length rs -> k < length (bcf_encode (firstn (S j) rs)))%nat /\
+    read_stream (bcf_read_record site_ok after) (firstn k (bcf_encode rs)) =
+      (firstn j rs,
+       if (j <? length rs)%nat && negb (k =? length (bcf_encode (firstn j rs)))%nat
+       then Err (short after) else after).
+Proof. exact bcf_stream_truncation. Qed.
+Print Assumptions c13_bcf_stream_truncation.
+
+(* ---- BGZF block sequence (model of bgzf/src/io/reader/frame.rs + reader.rs; DEFLATE + CRC of
+   a complete frame is the parameter [inflate]): the data of the frames wholly inside the cut;
+   clean end iff the cut is at a frame boundary or fewer than 18 bytes into the next frame (the
+   code's convention for a partial header), UnexpectedEof otherwise ---- *)
+Theorem c13_bgzf_truncation :
+  forall (inflate : list N -> option (list N)) fs k, Forall (frame_good inflate) fs ->
+  exists j : nat,
+    (j <= length fs)%nat /\
+    (length (bgzf_file (firstn j fs)) <= k)%nat /\
+    (j < length fs -> k < length (bgzf_file (firstn (S j) fs)))%nat /\
+    bgzf_blocks inflate (firstn k (bgzf_file fs)) =
+      (map (frame_data inflate) (firstn j fs),
+       if (j <? length fs)%nat && negb (k - length (bgzf_file (firstn j fs)) <? 18)%nat
+       then Err UnexpectedEof else Eof).
+Proof. exact bgzf_truncation. Qed.
+Print Assumptions c13_bgzf_truncation.
+
+Theorem c13_bgzf_no_fabrication :
+  forall (inflate : list N -> option (list N)) fs k i d, Forall (frame_good inflate) fs ->
+  nth_error (fst (bgzf_blocks inflate (firstn k (bgzf_file fs)))) i = Some d ->
+  exists f, nth_error fs i = Some f /\ d = frame_data inflate f.
+Proof. exact bgzf_no_fabrication. Qed.
+Print Assumptions c13_bgzf_no_fabrication.
+
+(* ---- a BAM record reader on top of the BGZF reader: it behaves as the plain-stream reader on
+   the part of the record stream delivered by the frames wholly inside the cut, followed by the
+   BGZF layer's own outcome s; with c13_bam_stream_truncation: the records wholly inside the
+   delivered bytes, then a clean end only if s = Eof and the delivered bytes end at a record
+   boundary ---- *)
+Theorem c13_bam_over_bgzf_truncation :
+  forall (inflate : list N -> option (list N)) fs rs hdrbytes k,
+    Forall (frame_good inflate) fs ->
+    concat (map (frame_data inflate) fs) = hdrbytes ++ bam_encode rs ->
+    exists (j : nat) (s : stop),
+      bgzf_blocks inflate (firstn k (bgzf_file fs)) = (map (frame_data inflate) (firstn j fs), s) /\
+      (s = Eof \/ s = Err UnexpectedEof) /\
+      let p := concat (map (frame_data inflate) (firstn j fs)) in
+      bam_over_bgzf inflate (length hdrbytes) (firstn k (bgzf_file fs)) =
+        if (length p <? length hdrbytes)%nat then None
+        else Some (read_stream (bam_read_record s)
+                     (firstn (length p - length hdrbytes) (bam_encode rs))).
+Proof. exact bam_over_bgzf_truncation. Qed.
+Print Assumptions c13_bam_over_bgzf_truncation.
+
+(* ---- BAI (count-driven layout): Err for every cut below the start of the optional trailing
+   n_no_coor field; the same index without the count for cuts inside / just before that field;
+   the index itself on the whole file ---- *)
+Theorem c13_bai_truncation : forall i k, bai_ok i ->
+  let file := w_bai i in
+  let base := length (w_bai (mkbai (bi_refs i) None)) in
+  ((k < base)%nat -> read_bai (firstn k file) = None) /\
+  ((base <= k < length file)%nat -> read_bai (firstn k file) = Some (mkbai (bi_refs i) None)) /\
+  ((length file <= k)%nat -> read_bai (firstn k file) = Some i).
+Proof. exact bai_truncation. Qed.
+Print Assumptions c13_bai_truncation.
+
+(* ---- non-vacuity ---- *)
+(* a 36-byte BAM record (32 fixed bytes, name "r\0", no cigar, 1 base, 1 quality) is [bam_good] *)
+Definition ex_rec : list N :=
+  [255;255;255;255; 255;255;255;255; 2;0;72;18; 0;0;4;0; 1;0;0;0; 255;255;255;255; 255;255;255;255;
+   0;0;0;0; 114;0; 16; 30].
+Example c13_ex_bam_good : bam_validate ex_rec = None /\ length ex_rec = 36%nat.
+Proof. vm_compute. split; reflexivity. Qed.
+
+(* two records, cut at every interesting place *)
+Example c13_ex_bam_cuts :
+  let s := bam_encode [ex_rec; ex_rec] in
+  length s = 80%nat /\
+  read_stream (bam_read_record Eof) (firstn 0 s) = ([], Eof) /\
+  read_stream (bam_read_record Eof) (firstn 3 s) = ([], Err UnexpectedEof) /\
+  read_stream (bam_read_record Eof) (firstn 39 s) = ([], Err UnexpectedEof) /\
+  read_stream (bam_read_record Eof) (firstn 40 s) = ([ex_rec], Eof) /\
+  read_stream (bam_read_record Eof) (firstn 41 s) = ([ex_rec], Err UnexpectedEof) /\
+  read_stream (bam_read_record Eof) (firstn 80 s) = ([ex_rec; ex_rec], Eof) /\
+  read_stream (bam_read_record (Err InvalidData)) (firstn 40 s) = ([ex_rec], Err InvalidData).
+Proof. vm_compute. repeat split. Qed.
+
+(* the BGZF EOF marker block is a well-formed frame for an inflate that accepts it; a cut 17
+   bytes into it reads as a clean end, a cut 18 bytes into it as UnexpectedEof *)
+Definition ex_eof_frame : list N :=
+  [31;139;8;4;0;0;0;0;0;255;6;0;66;67;2;0;27;0;3;0;0;0;0;0;0;0;0;0].
+Example c13_ex_bgzf :
+  let inf := fun _ : list N => Some ([] : list N) in
+  parse_block inf ex_eof_frame = inr [] /\
+  N.of_nat (length ex_eof_frame) = le_at 16 2 ex_eof_frame + 1 /\
+  bgzf_blocks inf (firstn 17 (ex_eof_frame ++ ex_eof_frame)) = ([], Eof) /\
+  bgzf_blocks inf (firstn 18 (ex_eof_frame ++ ex_eof_frame)) = ([], Err UnexpectedEof) /\
+  bgzf_blocks inf (firstn 45 (ex_eof_frame ++ ex_eof_frame)) = ([[]], Eof) /\
+  bgzf_blocks inf (firstn 46 (ex_eof_frame ++ ex_eof_frame)) = ([[]], Err UnexpectedEof).
+Proof. vm_compute. repeat split. Qed.
+
+Example c13_ex_bai :
+  let i := mkbai [mkbref [] None []] (Some 7) in
+  length (w_bai i) = 24%nat /\
+  read_bai (firstn 15 (w_bai i)) = None /\
+  read_bai (firstn 16 (w_bai i)) = Some (mkbai [mkbref [] None []] None) /\
+  read_bai (firstn 23 (w_bai i)) = Some (mkbai [mkbref [] None []] None) /\
+  read_bai (firstn 24 (w_bai i)) = Some i.
+Proof. exact bai_trunc_example. Qed.
